@@ -1457,13 +1457,17 @@ fn insertion_step(case: &Value) {
     };
     vrp_core::construction::heuristics::verif_apply_insertion_success(&mut ictx, success);
     let after_apply = observe(&ictx);
+    let early: Solution = rosomaxa::HeuristicSolution::deep_copy(&ictx).into();
+    let mut early_unassigned: Vec<String> = early.unassigned.iter().map(|(job, _)| name(job)).collect();
+    early_unassigned.sort();
     vrp_core::construction::heuristics::verif_finalize_insertion_ctx(&mut ictx);
     let after_finalize = observe(&ictx);
     let solution: Solution = ictx.into();
     let mut sol_unassigned: Vec<String> = solution.unassigned.iter().map(|(job, _)| name(job)).collect();
     sol_unassigned.sort();
     let sol_routes: Vec<Vec<Option<String>>> = solution.routes.iter().map(|r| r.tour.all_activities().map(|a| a.job.as_ref().map(|s| s.dimens.get_job_id().cloned().unwrap_or_default())).collect()).collect();
-    println!("{}", serde_json::to_string(&json!({"after_apply": after_apply, "after_finalize": after_finalize, "solution_unassigned": sol_unassigned, "solution_routes": sol_routes})).unwrap());
+    println!("{}", serde_json::to_string(&json!({"after_apply": after_apply, "after_finalize": after_finalize, "solution_unassigned": sol_unassigned, "solution_routes": sol_routes,
+        "early_unassigned": early_unassigned})).unwrap());
 }
 
 /// Unassigned section of the written solution (C02): entries of the case put into a `Solution`, written by `write_pragmatic`.
